@@ -69,11 +69,54 @@ def canonical_form(text):
             if not CANON_REL.match(alt): return f"relation {alt!r} is not in canonical form"
     return None
 
+CANON_PARTS = re.compile(
+    rf"^({IDENT})(?::({IDENT}))?(?: \((>=|<=|=|>>|<<) ([A-Za-z0-9.+~:-]+)\))?(?: \[([^\]]*)\])?((?: <[^>]*>)*)$")
+OPNAME = {v: k for k, v in G.OPS.items()}
+def parse_canonical(text):
+    """the abstract field (gen_relgrammar representation) of a text in canonical single-line form,
+    or None when it has a version outside the grammar (colon-separated parts without an epoch)"""
+    def terms(s):
+        out = []
+        for i, w in enumerate(s.split(" ")):
+            out.append(("" if i == 0 else " ", w.startswith("!"), w.lstrip("!")))
+        return out
+    items = []
+    for item in ([] if text == "" else text.split(", ")):
+        if item.startswith("$"):
+            segs = item[2:-1].split(":")
+            items.append(("S", segs[0], segs[1:], ""))
+            continue
+        rels = []
+        alts = item.split(" | ")
+        for k, alt in enumerate(alts):
+            m = CANON_PARTS.match(alt)
+            if not m: return None
+            name, qual, op, ver, archs, profs = m.groups()
+            r = W.mk_rel(name, trail=" " if k + 1 < len(alts) else "")
+            if qual: r["qual"] = ("", "", qual)
+            if op:
+                ep, rest = None, ver
+                if ":" in ver:
+                    ep, rest = ver.split(":", 1)
+                    if not re.fullmatch(r"0|[1-9][0-9]*", ep) or int(ep) > 4294967295: return None
+                pieces = rest.split(":")
+                if any(not re.fullmatch(IDENT, x) for x in pieces): return None
+                r["ver"] = (" ", "", OPNAME[op], " ", ep, pieces[0], "", pieces[1:])
+            if archs is not None: r["archs"] = (" ", terms(archs), "")
+            for g in re.findall(r" <([^>]*)>", profs or ""):
+                r["profs"].append((" ", terms(g), ""))
+            rels.append(r)
+        items.append(("E", rels[0], [(" ", x) for x in rels[1:]]))
+    if not items:
+        return ("", ("N",), [])
+    return ("", items[0], [(" ", i) for i in items[1:]])
+
 class C13(Prop):
     id = "C13"
     coq_targets = ["props/C13.vo"]
     props_file = "props/C13.v"
     design_ref = "docs/cones/C13.md"
+    case_ms = 20000          # the machine is shared: a loaded run once took > 4 s for one record (spurious HANG)
     level_text = (
         "Coq theorems over every well-formed abstract relationship field (RelGrammar.rfield with wf_rfield, the quantifier of C10: any "
         "SP/TAB/LF layout in every whitespace slot, empty entries, trailing comma, every optional part, epochs, negated architectures, "
@@ -211,6 +254,11 @@ class C13(Prop):
     def _oracle_text(self, fields, impl):
         """free text: outside the quantifier unless it is itself canonical output, on which
         wrap_and_sort must be the identity as far as the text is sorted"""
+        text = unhex(fields[0])
+        if canonical_form(text) is None:
+            f = parse_canonical(text)
+            if f is not None and G.render(f) == text:
+                return self._oracle_wf([fields[0], fields[1], G.encode(f)], impl)
         if impl == "PANIC":
             return None
         r = rec_fields(impl)
